@@ -11,7 +11,7 @@ import (
 
 func init() {
 	checks["C01"] = checkC01
-	explanations["C01"] = "Structural necessary condition (E1 must-pass over the call graph of fdo.TO2, goroutines and closures included): the three effect kinds — Transport.Send of ProveDevice (type 64), every DeviceModule.Transition/Receive/Yield invoke, every success return of TO2 — are reached only on paths that passed: VerifyHeader (device HMACs), VerifyManufacturerKey(credential key hash), VerifyEntries, equality of the key that verified ProveOVHdr with the chain's last key, Sign1.Verify true&&err==nil on the decoded ProveOVHdr, the fresh-nonce echo comparison, the HelloDevice hash comparison over the very request that was sent, (to1d==nil or Sign1.Verify of to1d under the chain-end key), Suite.Valid and kex.Available; GetOVNextEntry succeeds only after the entry-number echo; the verifiers' own success summaries carry their comparisons (shared table with C04). Type 64 has exactly one send site. Not decided: that HMAC/hash/signature primitives bind the bytes the spec says; behaviour under transport faults beyond 'an error return skips all effects'."
+	explanations["C01"] = "Structural necessary condition (E1 must-pass over the call graph of fdo.TO2, goroutines and closures included): the three effect kinds — Transport.Send of ProveDevice (type 64), every DeviceModule.Transition/Receive/Yield invoke, every success return of TO2 — are reached only on paths that passed: VerifyHeader (device HMACs), VerifyManufacturerKey(credential key hash), VerifyEntries, equality of the key that verified ProveOVHdr with the chain's last key, Sign1.Verify true&&err==nil on the decoded ProveOVHdr, the fresh-nonce echo comparison, the HelloDevice hash comparison over the very request that was sent, (to1d==nil or Sign1.Verify of to1d under the chain-end key), Suite.Valid and kex.Available; GetOVNextEntry succeeds only after the entry-number echo; the verifiers' own success summaries carry their comparisons (shared table with C04). Type 64 has exactly one send site. Also: every function on the TO2 path that tests a hash for the optional Err() method (hardware HMACs report failure only there) reports success only where the hash is not fallible or Err() was nil after the last Sum. Not decided: that HMAC/hash/signature primitives bind the bytes the spec says; behaviour under transport faults beyond 'an error return skips all effects'."
 }
 
 // c01DiscoverKeyField finds the struct field into which the key that verified
